@@ -26,8 +26,8 @@ import (
 type opKind int
 
 const (
-	opStart opKind = iota // thread created, not yet run
-	opResume              // rendezvous partner completed: just continue
+	opStart  opKind = iota // thread created, not yet run
+	opResume               // rendezvous partner completed: just continue
 	opSend
 	opRecv
 	opClose
@@ -61,6 +61,7 @@ type chanModel struct {
 type timerModel struct {
 	id     int
 	d      time.Duration
+	armed  time.Time
 	active bool
 	fired  bool
 	ch     *chanModel
@@ -121,25 +122,25 @@ type killSentinel struct{}
 
 // Point is one scheduling point of an execution.
 type Point struct {
-	Enabled []int // ids of the alternatives in canonical order (thread ids; timers are negative ids)
-	Costs   []int // deviation cost (0 or 1) of each alternative: a preemption, or a non-default environment answer
-	PreBefore int // deviations used before this point
-	Chosen  int   // index into Enabled
-	Running int   // thread id that was running before the point (-1 none)
+	Enabled        []int // ids of the alternatives in canonical order (thread ids; timers are negative ids)
+	Costs          []int // deviation cost (0 or 1) of each alternative: a preemption, or a non-default environment answer
+	PreBefore      int   // deviations used before this point
+	Chosen         int   // index into Enabled
+	Running        int   // thread id that was running before the point (-1 none)
 	RunningEnabled bool
-	Key     uint64
+	Key            uint64
 }
 
 // Outcome of one execution.
 type Outcome struct {
-	Points    []Point
-	Deadlock  bool
-	Panic     string
-	Horizon   bool
-	Spin      string // a thread ran without reaching a scheduling point for the watchdog period
-	Pruned    bool // stopped at an already expanded state
-	Diverged  string
-	Threads   []string // names of unfinished threads at the end
+	Points   []Point
+	Deadlock bool
+	Panic    string
+	Horizon  bool
+	Spin     string // a thread ran without reaching a scheduling point for the watchdog period
+	Pruned   bool   // stopped at an already expanded state
+	Diverged string
+	Threads  []string // names of unfinished threads at the end
 }
 
 // Sched is one execution under control.
@@ -166,13 +167,13 @@ type Sched struct {
 	StateExtra func() string
 	// Visit is called at every scheduling point beyond the replayed prefix with the state key and the number of
 	// preemptions used so far; returning false prunes the execution.
-	Visit func(key uint64, preemptions int) bool
-	preempt int
-	mainDone bool
-	mu      sync.Mutex
+	Visit        func(key uint64, preemptions int) bool
+	preempt      int
+	mainDone     bool
+	mu           sync.Mutex
 	PoolEmptyAlt bool // explore "pool returns nothing although it holds a buffer"
-	trace   []string
-	Trace   bool
+	trace        []string
+	Trace        bool
 }
 
 // Watchdog is how long a thread may run between two scheduling points before the execution is
@@ -477,7 +478,7 @@ func NewTimer(d time.Duration) *time.Timer {
 	}
 	t := time.NewTimer(time.Hour * 1000)
 	t.Stop()
-	tm := &timerModel{id: len(s.timers), d: d, active: true}
+	tm := &timerModel{id: len(s.timers), d: d, armed: s.now, active: true}
 	tm.ch = s.model(t.C)
 	tm.ch.timer = tm
 	tm.ch.cap = 1
@@ -512,6 +513,12 @@ func Now() time.Time {
 	}
 	return time.Now()
 }
+
+// Until is time.Until(t) on the virtual clock.
+func Until(t time.Time) time.Duration { return t.Sub(Now()) }
+
+// Advance moves the virtual clock of the execution forward (called from environment operations).
+func (s *Sched) Advance(d time.Duration) { s.now = s.now.Add(d) }
 
 // Since is time.Since(t) on the virtual clock.
 func Since(t time.Time) time.Duration { return Now().Sub(t) }
@@ -927,7 +934,9 @@ func (s *Sched) Run(main func()) Outcome {
 			// timer fires: virtual time advances, value buffered on its channel
 			ch.timer.fired = true
 			ch.timer.active = false
-			s.now = s.now.Add(ch.timer.d)
+			if due := ch.timer.armed.Add(ch.timer.d); due.After(s.now) {
+				s.now = due
+			}
 			ch.timer.ch.buf = append(ch.timer.ch.buf, s.now)
 			if s.Trace {
 				s.trace = append(s.trace, fmt.Sprintf("timer%d fires", ch.timer.id))
@@ -1037,6 +1046,24 @@ func (s *Sched) TimerDurations() []time.Duration {
 	}
 	return out
 }
+
+// TimerArm is one timer creation: the virtual time it was armed at and its duration.
+type TimerArm struct {
+	At time.Time
+	D  time.Duration
+}
+
+// TimerArms lists all timers created in this execution, in creation order.
+func (s *Sched) TimerArms() []TimerArm {
+	var out []TimerArm
+	for _, tm := range s.timers {
+		out = append(out, TimerArm{tm.armed, tm.d})
+	}
+	return out
+}
+
+// VNow is the virtual clock of the execution.
+func (s *Sched) VNow() time.Time { return s.now }
 
 // Preemptions used so far.
 func (s *Sched) Preemptions() int { return s.preempt }
